@@ -67,6 +67,10 @@ func runC11(c *core.Ctx) {
 			var j registryJob
 			json.Unmarshal([]byte(c.Child), &j)
 			registryChild(c, j)
+		case "rawsizes":
+			var j sizesJob
+			json.Unmarshal([]byte(c.Child), &j)
+			sizesChild(c, j)
 		}
 		return
 	}
@@ -74,10 +78,11 @@ func runC11(c *core.Ctx) {
 	o.Level = "model_checking"
 	o.Rule = "behaviour = one model-generated call sequence replayed on libs/ser: a byte string of the bounded universe fed to every decoder entry point of its target type, a model value encoded / decoded / pushed through every mutation class, or a registration order; plus one encode-decode-compare-re-encode round trip per corpus value (exploration). non-trivial = the input is accepted by a decoder or is a mutation of a valid encoding; evaluations = calls on the real code"
 	o.Assumptions = []string{
-		"level (i) (model checking) decides the grammar within the bounds of spec/Codec (inputs of at most 5-6 chunks over boundary alphabets, values of depth <= 3, strings up to 256 bytes (65536 in the thorough tier), 2 interfaces x 3 concrete types); levels (ii)/(iii) are model-seeded exploration over a corpus, not exhaustive",
+		"level (i) (model checking) decides the grammar within the bounds of spec/Codec (inputs of at most 5-6 chunks over boundary alphabets, one header of every form with its size field over the boundary lattice 0 .. 2^64-1 followed by at most 257 (65537) bytes, values of depth <= 3, strings up to 256 bytes (65536 in the thorough tier), 2 interfaces x 3 concrete types); levels (ii)/(iii) are model-seeded exploration over a corpus, not exhaustive",
 		"equal value = structural equality of what the encoding covers: caches/locks, rlp:\"-\" fields and unexported fields of default-encoded structs are not compared; nil and empty slices/maps, nil *big.Int and 0 are identified; times are compared by instant",
 		"bounded allocation is measured (runtime.MemStats.TotalAlloc per call, bound 64 x input + 1 MiB, + 1 MiB for the WAL frame decoder's fixed cap), not proved",
 		"the reactors' decodeMsg functions are unexported: their body, ser.DecodeBytesWithType(bz, &msg) into the reactor's message interface, is what is called",
+		"never hangs = every call of a raw entry point returns within the watchdog period (12 s, thorough 30 s; the specification's loops end after at most one iteration per input byte); stateObject.GetCommittedState is covered through its decoder call ser.Split(enc), trie resolution through trie.decodeNode as called by trie.VerifyProof",
 		"a malformed body of an interface value may be accepted because decodeCDCInterface drops the inner decoder's error: recorded as an observation, not compared",
 	}
 	o.Trusted = []string{"TLC", "the Go mirror types / value conversions of the model's targets (harness/props/c11/model.go)", "the structural comparator (equal.go; shown non-vacuous per type against the zero value)", "reflect, runtime.MemStats"}
@@ -94,7 +99,7 @@ func runC11(c *core.Ctx) {
 	gs := newGrammarStats()
 	type run struct {
 		cfg     string
-		kind    string // bytes | values | registry | ascoded
+		kind    string // bytes | values | registry | ascoded | sizes | sizes-ascoded
 		res     *tlc.Result
 		keepDec []*label // a few labels kept for the negative controls
 		keepVal []*label
@@ -111,6 +116,19 @@ func runC11(c *core.Ctx) {
 		{cfg: "CodecValues" + suffix + ".cfg", kind: "values"},
 		{cfg: "CodecRegistry.cfg", kind: "registry"},
 	}
+	// size-field arithmetic: every header form x the boundary lattice of sizes x what follows x where it sits
+	if c.Thorough() {
+		runs = append(runs, &run{cfg: "CodecSizes_thorough.cfg", kind: "sizes"})
+		// the as-coded variant: TLC itself finds the input on which libs/trie's compactToHex panics (documentary)
+		runs = append(runs, &run{cfg: "CodecSizesAsCoded.cfg", kind: "sizes-ascoded"})
+	} else {
+		runs = append(runs, &run{cfg: "CodecSizesS.cfg", kind: "sizes"}, &run{cfg: "CodecSizesL.cfg", kind: "sizes"})
+	}
+	sizes := newSizesSink(c)
+	if sizes == nil {
+		return
+	}
+	defer sizes.close()
 	if c.Thorough() {
 		// untyped inputs of up to 6 bytes over the quick alphabet
 		runs = append(runs, &run{cfg: "CodecBytesA6_thorough.cfg", kind: "bytes"})
@@ -138,6 +156,11 @@ func runC11(c *core.Ctx) {
 					mu.Lock()
 					r.lines = append(r.lines, line)
 					mu.Unlock()
+					return
+				case "sizes":
+					sizes.onLine(c, gs, line)
+					return
+				case "sizes-ascoded":
 					return
 				}
 				l, err := parseLabel(line)
@@ -180,6 +203,9 @@ func runC11(c *core.Ctx) {
 				c.Drift("the as-coded registry model no longer violates RegNoPanic")
 			}
 			continue
+		case "sizes-ascoded":
+			c.SetExtra("as_coded_sizes_model", fmt.Sprintf("TLC: violated=%q (expected SizesInv: in the model of libs/trie as written, decodeNode of a short node with an empty key -- c2 80 01 -- panics in compactToHex)", r.res.Violated))
+			continue
 		}
 		if r.res.Violated != "" || !r.res.Finished {
 			c.Infra("Codec model %s: %s\n%s", r.cfg, r.res.Describe(), r.res.Tail)
@@ -198,6 +224,9 @@ func runC11(c *core.Ctx) {
 	// allocation of the model inputs with long-form headers / huge claims, measured in quiet child processes
 	runAllocProbes(c, gs)
 
+	// the size-field inputs through every raw entry point and trie.decodeNode, under a watchdog, in child processes
+	sizes.run(c, gs)
+
 	// registry: every registration order that the tour needs to cover all edges, each in a fresh process
 	regPaths, regSteps := replayRegistry(c, regLines)
 
@@ -208,8 +237,9 @@ func runC11(c *core.Ctx) {
 		keepVal = append(keepVal, r.keepVal...)
 	}
 	negativeControls(c, keepDec, keepVal)
+	c.SetExtra("negative_controls_caught_sizes", sizes.negativeControls(c))
 
-	o.Traces = gs.inputs + gs.values + regPaths + typedAgg.RoundTrips
+	o.Traces = gs.inputs + gs.szRecords + gs.values + regPaths + typedAgg.RoundTrips
 	o.Evaluations = gs.calls + regSteps*12 + typedAgg.Calls
 	o.Distinct = gs.accepted + gs.mutations + typedAgg.Items
 	c.SetExtra("grammar_level", map[string]interface{}{
